@@ -9,6 +9,7 @@ package dastard
 
 import (
 	"bytes"
+	"encoding/binary"
 	"fmt"
 	"os"
 	"sync"
@@ -39,6 +40,8 @@ type c03Case struct {
 	Lost       [][]int    `json:"lost"`        // per group: lost run-phase positions (0-based, after the sampling phase)
 	Interleave bool       `json:"interleave"`  // packets of different groups alternate within a tick (else group after group)
 	Ring       bool       `json:"ring,omitempty"` // the producers are real AbacoRings over real shared-memory ring buffers the harness writes into
+	Slot       int        `json:"slot,omitempty"`       // ring mode: packet (slot) size announced in the ring description (0: 8192)
+	PriorSlot  int        `json:"prior_slot,omitempty"` // ring mode: the same AbacoRing objects were started and stopped before, on rings with this slot size
 	Seed       int        `json:"seed"`
 }
 
@@ -88,6 +91,7 @@ func c03Value(seed, g, k int, frame int64) int32 {
 }
 
 type c03Producer struct {
+	slot    int
 	ring    *AbacoRing             // ring mode: the real reader ...
 	writer  *ringbuffer.RingBuffer // ... and the harness' writing end of the same shared memory
 	ringErr string
@@ -125,7 +129,7 @@ func (p *c03Producer) stop() error {
 func (p *c03Producer) viaRing(ps []*packets.Packet) ([]*packets.Packet, error) {
 	for _, q := range ps {
 		b := q.Bytes()
-		slot := make([]byte, (len(b)+8191)/8192*8192)
+		slot := make([]byte, (len(b)+p.slot-1)/p.slot*p.slot)
 		copy(slot, b)
 		if n, err := p.writer.Write(slot); err != nil || n != len(slot) {
 			p.ringErr = fmt.Sprintf("harness: ring took %d of %d bytes (%v)", n, len(slot), err)
@@ -361,14 +365,21 @@ func c03Run(c c03Case) (v vVerdict) {
 	}
 	as.producers = as.producers[:0]
 	ringMode := c.Ring
+	slotSize := c.Slot
+	if slotSize == 0 {
+		slotSize = 8192
+	}
 	if ringMode { // every batch must fit into the ring (255 slots) and every packet into one slot
+		if slotSize < 1024 || slotSize > 65536 || slotSize%8 != 0 || (c.PriorSlot != 0 && (c.PriorSlot < 1024 || c.PriorSlot > 65536 || c.PriorSlot%8 != 0)) {
+			ringMode = false
+		}
 		for _, pr := range prods {
 			for _, tk := range append([][]*packets.Packet{pr.sample}, pr.ticks...) {
 				if len(tk) > 250 {
 					ringMode = false
 				}
 				for _, q := range tk {
-					if q.Length() > 8192 {
+					if q.Length() > slotSize {
 						ringMode = false
 					}
 				}
@@ -378,14 +389,49 @@ func c03Run(c c03Case) (v vVerdict) {
 	if ringMode {
 		for i, pr := range prods {
 			name := fmt.Sprintf("verif_c03_%d_%s_%d", os.Getpid(), os.Getenv("VERIF_SHARD"), i)
-			w, _ := ringbuffer.NewRingBuffer(name+"_buffer", name+"_description")
-			w.Unlink()
-			if err := w.Create(256 * 8192); err != nil {
+			mk := func(sz int) (*ringbuffer.RingBuffer, error) {
+				w, _ := ringbuffer.NewRingBuffer(name+"_buffer", name+"_description")
+				w.Unlink()
+				if err := w.Create(256 * sz); err != nil {
+					return nil, err
+				}
+				// the packet size is a field of the ring description that the data producer fills in (Create, "for testing only",
+				// always says 8192): int64 at offset 32 of the description region
+				f, err := os.OpenFile("/dev/shm/"+name+"_description", os.O_WRONLY, 0)
+				if err != nil {
+					return nil, err
+				}
+				defer f.Close()
+				var b [8]byte
+				binary.LittleEndian.PutUint64(b[:], uint64(sz))
+				if _, err := f.WriteAt(b[:], 32); err != nil {
+					return nil, err
+				}
+				return w, nil
+			}
+			r, _ := ringbuffer.NewRingBuffer(name+"_buffer", name+"_description")
+			pr.ring, pr.slot = &AbacoRing{ringnum: -1, ring: r}, slotSize
+			if c.PriorSlot != 0 {
+				// an earlier run of the same server on a ring with another packet size: started and stopped
+				w0, err := mk(c.PriorSlot)
+				if err != nil {
+					return vVerdict{Inconclusive: "cannot create a shared-memory ring: " + err.Error()}
+				}
+				if err := pr.ring.start(); err != nil {
+					w0.Close()
+					w0.Unlink()
+					return vFailf("ring-start", "AbacoRing.start on a fresh ring with packet size %d: %v", c.PriorSlot, err)
+				}
+				pr.ring.stop()
+				w0.Close()
+				w0.Unlink()
+			}
+			w, err := mk(slotSize)
+			if err != nil {
 				return vVerdict{Inconclusive: "cannot create a shared-memory ring: " + err.Error()}
 			}
 			defer func() { w.Close(); w.Unlink() }()
-			r, _ := ringbuffer.NewRingBuffer(name+"_buffer", name+"_description")
-			pr.writer, pr.ring = w, &AbacoRing{ringnum: -1, ring: r}
+			pr.writer = w
 		}
 	}
 	for _, pr := range prods {
@@ -545,6 +591,9 @@ func c03Run(c c03Case) (v vVerdict) {
 	}
 	if ringMode {
 		v.Classes = append(v.Classes, "real-ring-buffers")
+		if c.PriorSlot != 0 && c.PriorSlot != slotSize {
+			v.Classes = append(v.Classes, "ring-restarted-with-other-packet-size")
+		}
 	}
 	if lagging {
 		v.Classes = append(v.Classes, "lagging-group")
@@ -570,6 +619,10 @@ func c03Gen(t *rapid.T) c03Case {
 	c.Seed = rapid.IntRange(0, 1<<20).Draw(t, "seed")
 	c.Interleave = rapid.Bool().Draw(t, "interleave")
 	c.Ring = rapid.IntRange(0, 3).Draw(t, "ring") == 0
+	if c.Ring {
+		c.Slot = rapid.SampledFrom([]int{0, 0, 4096, 16384}).Draw(t, "slot")
+		c.PriorSlot = rapid.SampledFrom([]int{0, 0, 8192, 4096, 16384}).Draw(t, "priorslot")
+	}
 	first := rapid.SampledFrom([]int{0, 1, 100}).Draw(t, "firstchan")
 	var groups []c03Group
 	for gi := 0; gi < ng; gi++ {
